@@ -236,6 +236,27 @@ pub static Q2_DEF: Def = Def {
 };
 corpus_impl!(Q2, str, Q2_DEF, |t| match t { Q2::Int => 1, Q2::Dimension => 2, Q2::Ident => 3, Q2::Space => 4, Q2::XAtEnd => 5 }, |_e| 0, |_x| (0, true, 0, 0));
 
+/// end-of-input assertion after which NO pattern can consume another byte: the state reached by "." has only the
+/// end-of-input edge (Q2's `x$` state also continues into Ident).  ".": FinalDot only when it is the last byte.
+#[derive(Logos, Debug, Clone, Copy, PartialEq)]
+#[logos(utf8 = false)]
+pub enum Q4 {
+    #[regex(r"\.$")] FinalDot,
+    #[regex("[a-z]+")] Word,
+    #[token(" ")] Space,
+    #[regex(r";\n?$")] FinalSemi,
+}
+pub static Q4_DEF: Def = Def {
+    name: "Q4", utf8: false, decide: no_callbacks, log_callbacks: false, default_err: plain_default,
+    pats: &[
+        Pat { p: P::Cat(&[P::Lit(b"."), P::AtEnd]), prio: 2, act: Act::Tok(1) },
+        Pat { p: P::Plus(&P::Class(&[(b'a', b'z')])), prio: 2, act: Act::Tok(2) },
+        Pat { p: P::Lit(b" "), prio: 2, act: Act::Tok(3) },
+        Pat { p: P::Cat(&[P::Lit(b";"), P::Opt(&P::Lit(b"\n")), P::AtEnd]), prio: 4, act: Act::Tok(4) },
+    ],
+};
+corpus_impl!(Q4, bytes, Q4_DEF, |t| match t { Q4::FinalDot => 1, Q4::Word => 2, Q4::Space => 3, Q4::FinalSemi => 4 }, |_e| 0, |_x| (0, true, 0, 0));
+
 // ---- C12: a definition with a Unicode-sensitive *str* subpattern, in str mode and with utf8 = false
 #[derive(Logos, Debug, PartialEq, Clone, Copy)]
 #[logos(subpattern nota = "[^a]")]
